@@ -2,6 +2,7 @@
 from __future__ import annotations
 
 from collections import OrderedDict
+from decimal import Decimal
 from enum import Enum
 
 from asyncfix import FMsg, FTag
@@ -103,7 +104,11 @@ class FIXContainer:
             if not replace and t in self.tags:
                 raise DuplicatedTagError(f"tag={t} already exists")
 
-            value = str(value)
+            if isinstance(value, float) and "e" in repr(value):
+                # FIX float fields have no exponent notation: 1e-05 -> 0.00001
+                value = format(Decimal(repr(value)), "f")
+            else:
+                value = str(value)
 
         self.tags[t] = value
 
